@@ -230,6 +230,63 @@ func overwrittenWhole(sl *ssa.Slice) bool {
 	return walk(sl)
 }
 
+// filledByLoop: the function stores whole elements into the re-extended slice (or into the field it is stored back to) at a
+// non-constant index inside a loop: the fill idiom `s = s[:n]; for i := range src { s[i] = f(src[i]) }`. Stores into a
+// FIELD of an element (s[i].x = ...) do not count: the other fields keep their old values. The loop is not proved to cover
+// the whole new length.
+func filledByLoop(sl *ssa.Slice, fld *types.Var) bool {
+	f := sl.Parent()
+	inLoop := map[*ssa.BasicBlock]bool{}
+	for _, l := range naturalLoops(f) {
+		for b := range l.blocks {
+			inLoop[b] = true
+		}
+	}
+	// values denoting the slice: the re-slice itself, phis of it, loads of the field
+	denotes := map[ssa.Value]bool{sl: true}
+	for changed := true; changed; {
+		changed = false
+		for _, b := range f.Blocks {
+			for _, in := range b.Instrs {
+				if ph, ok := in.(*ssa.Phi); ok && !denotes[ph] {
+					for _, e := range ph.Edges {
+						if denotes[e] {
+							denotes[ph] = true
+							changed = true
+						}
+					}
+				}
+				if u, ok := in.(*ssa.UnOp); ok && u.Op == token.MUL && !denotes[u] {
+					if f2, _, _ := fieldOfLoad(u); f2 == fld {
+						denotes[u] = true
+						changed = true
+					}
+				}
+			}
+		}
+	}
+	for _, b := range f.Blocks {
+		if !inLoop[b] {
+			continue
+		}
+		for _, in := range b.Instrs {
+			st, ok := in.(*ssa.Store)
+			if !ok {
+				continue
+			}
+			ia, ok := st.Addr.(*ssa.IndexAddr)
+			if !ok || !denotes[ia.X] {
+				continue
+			}
+			if _, isK := ia.Index.(*ssa.Const); isK {
+				continue
+			}
+			return true
+		}
+	}
+	return false
+}
+
 // ruleStale — R-STALE: storage kept by an object (a slice-typed field) is re-extended past its current length (x.f =
 // x.f[:n] after consulting cap(x.f)) only for the fields listed here, each confirmed by reading: the exposed elements are
 // entirely rewritten before they are read, or the object is not reused. Everywhere else growth goes through append or make,
@@ -251,6 +308,10 @@ func ruleStale(p *Prog, r *Report, allowed map[string]string, floor int) {
 		okey := key + "/" + p.FnName(g.fn)
 		if overwrittenWhole(g.in) {
 			r.Check(true, rule, okey, p.IPos(g.in), "the re-extended storage is entirely overwritten by copy() from a source of the new length, or cleared")
+			continue
+		}
+		if filledByLoop(g.in, g.field) {
+			r.Check(true, rule, okey, p.IPos(g.in), "the elements of the re-extended storage are assigned whole (x.f[i] = v, not a field of x.f[i]) by a loop of the function")
 			continue
 		}
 		why, ok := allowed[key]
